@@ -323,30 +323,31 @@ Definition adjacent_blocks (s : st) (b : nat) : option nat * option nat :=
 Definition opt_is_code (s : st) (o : option nat) : bool := match o with Some b => is_code s b | None => false end.
 Definition opt_is_cfgnode (s : st) (o : option nat) : bool := opt_is_code s o.   (* adjacent blocks are byte blocks *)
 
-(* _required_cfi_directives *)
+(* _required_cfi_directives: start/end proc and remember/restore are kept, except that a procedure that starts and ends inside the
+   block goes as a whole *)
+Definition req_step (acc : list directive * list directive) (d : directive) : list directive * list directive :=
+  let '(results, proc) := acc in
+  let to_proc := match proc with [] => false | _ => true end in
+  match fst d with
+  | DStart => (results, proc ++ [d])
+  | DEnd => if to_proc then (results, []) else (results ++ [d], [])
+  | DRemember | DRestore => if to_proc then (results, proc ++ [d]) else (results ++ [d], proc)
+  | DOther => (results, proc)
+  end.
+Definition required_of (ds : list directive) : list directive :=
+  let '(results, proc) := fold_left req_step ds ([], []) in results ++ proc.
+(* sorted(displacement_map.items()) *)
+Definition dm_sorted {V} (dm : dmap V) : dmap V :=
+  fold_right (fun kv acc =>
+                (fix ins (l : list (Z * V)) := match l with
+                   | [] => [kv]
+                   | h :: t => if fst kv <=? fst h then kv :: l else h :: ins t end) acc) [] dm.
 Definition required_cfi (s : st) (b : nat) : list directive :=
   if negb (is_code s b) then []
   else if negb (tab_truthy (cfi s)) then []
   else match aget b (cfi s) with
        | None | Some [] => []
-       | Some dm =>
-           (* sorted by displacement *)
-           let sorted := fold_right (fun kv acc =>
-                            (fix ins (l : list (Z * list directive)) := match l with
-                               | [] => [kv]
-                               | h :: t => if fst kv <=? fst h then kv :: l else h :: ins t end) acc) [] dm in
-           let '(results, proc) :=
-             fold_left (fun acc d =>
-                          let '(results, proc) := acc in
-                          let to_proc := match proc with [] => false | _ => true end in
-                          match fst d with
-                          | DStart => (results, proc ++ [d])
-                          | DEnd => if to_proc then (results, []) else (results ++ [d], [])
-                          | DRemember | DRestore => if to_proc then (results, proc ++ [d]) else (results ++ [d], proc)
-                          | DOther => (results, proc)
-                          end)
-                       (flat_map snd sorted) ([], []) in
-           results ++ proc
+       | Some dm => required_of (flat_map snd (dm_sorted dm))
        end.
 
 Definition can_remove_block (s : st) (b : nat) (to_proxy : bool) (prev next_ : option nat) (cfid : list directive) : bool * st :=
